@@ -282,6 +282,7 @@ def run_config(plan, knobs, with_eig=False, faults=None):
                              'exit_code': int(ss.exit_code), 'n_attempts': hist['n_attempts']})
     taps.remove()
     out['ret'] = bool(ret)
+    hist['violations'].extend(tdssim.o_solver_axb(hist))
     return out
 
 
